@@ -63,3 +63,17 @@ ENTRY["lean_props_extra"].append(_pg.EXTRA_LEAN)
 ENTRY["trusted_base"] = ENTRY["trusted_base"] + _pg.TRUSTED_BASE
 ENTRY["assumptions"] = ENTRY["assumptions"] + _pg.ASSUMPTIONS
 ENTRY["level_text"] += _pg.LEVEL_TEXT
+
+# Fifth session: the protocol glue of the reshare / add-operators / remove-operators / replace-operator ceremonies
+# (dkg/protocol.go, protocol_reshare.go, protocol_replaceoperator.go, the RunReshareDKG prefix): Model/ReshareProto.lean on
+# top of Model/PedersenGlue.lean and Spec/Frost.lean, theorems Props/C11Reshare.lean, stream reshare (the REAL four ceremonies
+# on all participating nodes over loopback TCP, artifacts loaded from disk, every t'-subset of new shares recovered and
+# signed with). Two observations about `remove-operators` (not violations of C11: one is a safe failure, the other needs
+# foreign / repeated ENRs in the removing list and leaves every t shares reconstructing) are recorded in the snippet with
+# candidate patches in fixes/; the stream does not generate them.
+from vlib import snippet_C11reshare as _rp
+ENTRY["streams"].append(_rp.STREAM)
+ENTRY["lean_props_extra"].append(_rp.EXTRA_LEAN)
+ENTRY["trusted_base"] = ENTRY["trusted_base"] + _rp.TRUSTED_BASE
+ENTRY["assumptions"] = ENTRY["assumptions"] + _rp.ASSUMPTIONS + ["observation (not a clause of C11): " + k["note"] + " (" + k["fix"] + ")" for k in _rp.KNOWN_FINDINGS]
+ENTRY["level_text"] += _rp.LEVEL_TEXT
